@@ -158,6 +158,13 @@ Qed.
 
 (* ---------- instantiated to accepted references ---------- *)
 
+Section Avail.
+Variable avail : str -> bool.
+Notation valid_digest := (Reference.valid_digest avail).
+Notation repo_parse := (Reference.repo_parse avail).
+Notation op_requests := (RefOps.op_requests avail).
+Notation wf_ref := (wf_ref avail).
+
 Lemma repo_qf_free s : valid_repository s = true -> qf_free s.
 Proof.
   intro H. pose proof (repository_url_clean s H) as C.
@@ -217,7 +224,7 @@ Theorem url_exact vr plain r :
 Proof.
   intros Hvr ([Hr _] & Hp & Hf) Hne.
   assert (Hs : seg_clean (r_reference r)).
-  { destruct Hf as [E|[T|D]]; [contradiction | now apply tag_seg_clean | now apply digest_seg_clean]. }
+  { destruct Hf as [E|[T|D]]; [contradiction | now apply tag_seg_clean | now apply (digest_seg_clean avail)]. }
   pose proof (Hvr _ Hr) as Hc.
   split; [|split].
   - apply (url_is_intro plain r (b "manifests") Hc Hp); [apply const_seg_ok; reflexivity | exact Hs].
@@ -262,9 +269,9 @@ Theorem op_requests_exact_paths vr op plain breg brepo s d reqs :
               (seg = b "manifests" \/ seg = b "blobs") /\ (x = r_reference r \/ x = d) /\
               url_is (snd mu) plain (mkRef breg brepo x) seg) reqs.
 Proof.
-  intros Hvr Hbr Hbp Hd H. unfold op_requests in H.
+  intros Hvr Hbr Hbp Hd H. unfold RefOps.op_requests in H.
   destruct (repo_parse vr breg brepo s) as [r|] eqn:Hp; [|discriminate].
-  destruct (repo_parse_result_in_base vr breg brepo s r Hp) as (Hreg & Hrepo & Hne & Hv).
+  destruct (repo_parse_result_in_base avail vr breg brepo s r Hp) as (Hreg & Hrepo & Hne & Hv).
   exists r. split; [reflexivity|].
   destruct r as [rr rp rf]. cbn [r_registry r_repository r_reference] in *. subst rr rp.
   assert (Wr : wf_ref vr (mkRef breg brepo rf)).
@@ -288,3 +295,4 @@ Proof.
     injection H as <-;
     repeat (apply Forall_cons || apply Forall_nil); cbn [snd]; assumption.
 Qed.
+End Avail.
